@@ -1188,6 +1188,63 @@ pub fn explicit_cells(seed: u64) -> Vec<Scenario> {
             }
         }
     }
+    // C. navigate (delta keeps a private copy of less's history file) x state of the data directory
+    //    x less version: whatever happens to the history file, the selected pager is started, is told
+    //    to pass colours through, and receives everything
+    for (nclass, nav_args, nav_env, nav_gc) in [("flag", vec!["--navigate"], None, None), ("env", vec![], Some(("DELTA_NAVIGATE", "1")), None), ("gitconfig", vec![], None, Some("[delta]\n\tnavigate = true\n"))] {
+        for (dclass, datadir) in [("writable", None), ("below-a-file", Some("/dev/null/share")), ("missing-unwritable", Some("/proc/sys/kernel/nonexistent/share")), ("empty-value", Some(""))] {
+            for (vclass, lessver) in [("581", "less 581.2 (PCRE2 regular expressions)"), ("487", "less 487 (GNU regular expressions)"), ("529", "less 529"), ("530", "less 530 (POSIX regular expressions)"), ("633", "less 633 (PCRE2 regular expressions)"), ("busybox", "BusyBox v1.36.1 multi-call binary.")] {
+                // the full version list for the writable directory, two versions for the others
+                if dclass != "writable" && vclass != "581" && vclass != "529" {
+                    continue;
+                }
+                for pager_src in ["default", "DELTA_PAGER-less", "PAGER-less-args", "DELTA_PAGER-other"] {
+                    let mut spec = RunSpec::default();
+                    spec.plan = Plan::basic(mix(seed, &[tag("cellhash-nav"), out.len() as u64]));
+                    spec.args = vec!["--paging".into(), "always".into(), "--width".into(), "100".into()];
+                    if nav_gc.is_none() {
+                        spec.args.push("--no-gitconfig".into());
+                    }
+                    for a in &nav_args {
+                        spec.args.push((*a).into());
+                    }
+                    if let Some((k, v)) = nav_env {
+                        spec.env.push((k.into(), v.into()));
+                    }
+                    spec.gitconfig = nav_gc.map(|x| x.to_string());
+                    if let Some(dd) = datadir {
+                        spec.env.push(("XDG_DATA_HOME".into(), dd.into()));
+                        if dd.is_empty() {
+                            // no XDG directory: the fallback is below HOME, which is not a directory either
+                            spec.env.push(("HOME".into(), "/dev/null".into()));
+                        }
+                    }
+                    let (mut dp, mut pp) = (None, None);
+                    match pager_src {
+                        "DELTA_PAGER-less" => {
+                            spec.env.push(("DELTA_PAGER".into(), "less".into()));
+                            dp = Some("less");
+                        }
+                        "PAGER-less-args" => {
+                            spec.env.push(("PAGER".into(), "less -X".into()));
+                            pp = Some("less -X");
+                        }
+                        "DELTA_PAGER-other" => {
+                            spec.env.push(("DELTA_PAGER".into(), "mypager --opt x".into()));
+                            dp = Some("mypager --opt x");
+                        }
+                        _ => {}
+                    }
+                    spec.stdin = diff.clone().into();
+                    let m = pager_model(None, None, dp, None, pp);
+                    let mut setup = pg(0);
+                    setup.less_version = lessver.into();
+                    spec.pager = Some(setup);
+                    out.push(Scenario { name: format!("cell-navigate-{}-{}-less{}-{}", nclass, dclass, vclass, pager_src), kind: "stdin".into(), sub: format!("nav-{}-{}-{}", nclass, dclass, pager_src), spec, paging: "always".into(), expect_exit: 0, tokens: tokens.clone(), pager_model: Some(m), stderr_may_be_nonempty: false, check_selection: true, light: true });
+                }
+            }
+        }
+    }
     // B. delta A B: operand class x git version x status
     for (oclass, oa, ob) in [("regular", "a.txt", "b.txt"), ("subst-first", "/dev/fd/63", "b.txt"), ("subst-second", "a.txt", "/proc/self/fd/12"), ("subst-both", "/dev/fd/63", "/dev/fd/62")] {
         for gv in ["git version 2.39.5", "git version 2.42.0", "git version 2.45.1", "git version 1.9.1"] {
